@@ -1,6 +1,8 @@
 """Importable subclasses of built-in samplers (distinct class names for line-ups of up to 6 classes; picklable)."""
 from black_it.samplers.halton import HaltonSampler
 from black_it.samplers.r_sequence import RSequenceSampler
+import numpy as np
+
 from black_it.samplers.random_uniform import RandomUniformSampler
 
 
@@ -14,3 +16,15 @@ class RSequenceB(RSequenceSampler):
 
 class RandomUniformB(RandomUniformSampler):
     pass
+
+
+class Ballast(RandomUniformSampler):
+    """A sampler that carries a growing amount of state (like a surrogate fitted on a growing history): ~28 MB more at every
+    call, so the scheduler pickle of a checkpoint grows through tens of MB within a few batches."""
+
+    STEP = 3_500_000
+
+    def sample_batch(self, batch_size, search_space, existing_points, existing_losses):
+        prev = getattr(self, "_ballast", np.zeros(0))
+        self._ballast = np.concatenate([prev, np.full(self.STEP, float(len(existing_points)))])
+        return super().sample_batch(batch_size, search_space, existing_points, existing_losses)
